@@ -243,8 +243,17 @@ def setup(repo):
     return 0
 
 
-def run_for_property(repo, prop, tier):
-    hs = [u for u in units() if prop in u["props"] and (tier == "thorough" or u["tier"] == "quick")]
+def touches(u, changed):
+    """does harness `u` check one of the changed (pinned, not Verus-verified) functions?"""
+    subs = [x.replace("_", " ") for x in (u.get("fns") or "").split(",") if x]
+    return any(sub in key for sub in subs for key in changed)
+
+
+def run_for_property(repo, prop, tier, changed=()):
+    # quick tier: the quick units, plus - escalation - every thorough unit that checks a function
+    # whose body differs from the recorded baseline (an edit of a function with an assumed contract
+    # is never waved through just because its checking unit is expensive)
+    hs = [u for u in units() if prop in u["props"] and (tier == "thorough" or u["tier"] == "quick" or touches(u, changed))]
     out = {"violations": [], "undecided": [], "obligations": 0, "samples": [], "units": [], "cmds": [], "trusted": [],
            "bounded": 0, "cbmc_checks": 0, "covers_hit": 0}
     skipped = [u for u in units() if prop in u["props"] and u not in hs]
@@ -252,6 +261,7 @@ def run_for_property(repo, prop, tier):
         for u in skipped:
             out["units"].append({"harness": u["name"], "status": "not run in this tier", "kind": u["kind"], "bound": u.get("bound", "")})
         return out
+    out["escalated"] = [u["name"] for u in hs if tier != "thorough" and u["tier"] != "quick"]
     res, cmds = run_harnesses(repo, hs)
     out["cmds"] = cmds
     for h in hs:
